@@ -21,9 +21,9 @@ ASCII_POOL = [
     "path/to/some/file.txt", "path/to/another/deeper/directory/structure/file.go", "x" * 27, "y" * 28, "z" * 29, "w" * 47,
     "v" * 77, "u" * 78, "t" * 79, "#!$%&*+,-:;<=>?@^_`|",
 ]
-UNI_POOL = ["漢字", "a漢b", "étude", "á é", "한글 hangul", "ＡＢ fullwidth",
-            "漢" * 45, "ab" + "漢字" * 20 + "cd", "x" * 16 + "漢" + "yyy", "x" * 17 + "漢" + "yyy",
-            "nöél " * 12, "b-á", "漢a"]
+UNI_POOL = ["\u6f22\u5b57", "a\u6f22b", "\u00e9tude", "\u00e1 \u00e9", "\ud55c\uae00 hangul", "\uff21\uff22 fullwidth",
+            "\u6f22" * 45, "ab" + "\u6f22\u5b57" * 20 + "cd", "x" * 16 + "\u6f22" + "yyy", "x" * 17 + "\u6f22" + "yyy",
+            "no\u0308e\u0301l " * 12, "e\u0301", "b-\u00e1", "\u6f22a"]      # wide, precomposed, combining marks
 HEADERS = [None, None, "HEAD", "first header line\nsecond", "a header line that is much too long for most of the windows used in these sessions",
            "H1\nH2\nH3"]
 SIZES_W = [20, 21, 24, 30, 37, 50, 64, 80]
@@ -171,11 +171,6 @@ def pane_size(s):
     return int(out[0]), int(out[1])
 
 
-def text_width(t):
-    return sum(2 if unicodedata.east_asian_width(ch) in ("W", "F") else 0 if unicodedata.category(ch) in ("Mn", "Me", "Cf") else 1
-               for ch in t)
-
-
 def snapshot(s, scfg, items, step, sid, slow, stats):
     tr, rows = settle(s, slow)
     if tr is None:
@@ -183,13 +178,8 @@ def snapshot(s, scfg, items, step, sid, slow, stats):
     term = [e for e in tr if e["ev"].startswith("term.") and "cy" in e]
     last = term[-1]
     w, h = pane_size(s)
-    # domain classification (not a verdict): once a query has been wider than the prompt line the horizontal scroll offset of
-    # the prompt (not logged) may stay positive; from then on the prompt row is only required to show a part of the query
-    room = min(w, stats.get("minw", w)) - text_width("> " if scfg.prompt is None else scfg.prompt) - 1
-    for e in term[stats.get("seen", 0):]:
-        if text_width(e["input"]) > room:
-            stats["scrolled"] = True
-    stats["seen"], stats["minw"] = len(term), w
+    if "xoffset" not in last:
+        raise Infra("the trace hooks of this tree do not log xoffset")
     lists = [e for e in term if e["ev"] == "term.list"]
     if not lists or "ids" not in lists[-1] or last["reading"] or last["n"] != len(lists[-1]["ids"]):
         stats["skipped"] = stats.get("skipped", 0) + 1
@@ -198,9 +188,9 @@ def snapshot(s, scfg, items, step, sid, slow, stats):
     rows = [r.rstrip(" ") for r in rows]
     wide, zero = width_table(items + rows + [last["input"]] + ([scfg.header] if scfg.header else []))
     return {"sid": sid, "step": step, "seq": last["seq"], "w": w, "h": h, "wide": wide, "zero": zero, "cfg": scfg.spec(items),
-            "st": {"input": cells(last["input"]), "cx": last["cx"], "list": ids, "texts": [cells(t) for t in texts],
+            "st": {"input": cells(last["input"]), "cx": last["cx"], "xoffset": last["xoffset"], "list": ids, "texts": [cells(t) for t in texts],
                    "sel": last["sel"], "multi": last["multi"], "cy": last["cy"], "offset": last["offset"], "count": last["count"]},
-            "scrolled": bool(stats.get("scrolled")), "maxItems": last["maxItems"], "orig": [cells(items[i + scfg.nhl]) if 0 <= i + scfg.nhl < len(items) else None for i in ids],
+            "maxItems": last["maxItems"], "orig": [cells(items[i + scfg.nhl]) if 0 <= i + scfg.nhl < len(items) else None for i in ids],
             "rows": [cells(r) for r in rows]}
 
 
@@ -289,10 +279,16 @@ def run(ctx):
            ["MC_Screen_place.cfg", "MC_Screen.cfg", "MC_Screen_cut.cfg"])
     for cfgname in mcs:
         ctx.mc("MC_Screen", cfgname, timeout=2400, workers=6, coverage=True)
+    taken = {}
     for label, cov in ctx.cov["action_coverage"].items():
-        zero = [a for a, n in cov.items() if n == 0 and a.startswith("MC_Screen.")]
-        if zero:
-            raise Infra("%s: actions never taken: %s" % (label, zero))
+        acts = {a: n for a, n in cov.items() if a.startswith("MC_Screen.A")}
+        if not any(acts.values()):
+            raise Infra("%s: no step of the state machine was taken" % label)
+        for a, n in acts.items():
+            taken[a] = taken.get(a, 0) + n
+    never = sorted(a for a, n in taken.items() if n == 0)
+    if never or len(taken) < 5:
+        raise Infra("MC_Screen: steps never taken in any configuration: %s (seen %s)" % (never, sorted(taken)))
     # (2) real sessions
     fzf = ctx.build_fzf()
     jobs = make_jobs(ctx)
